@@ -72,8 +72,15 @@ def check_positions(ctx, src, rq=None):
     ctx.check(getc is not None and cap is not None and len(disp) >= 2 and fill is not None and pos(getc) < pos(cap) < min(map(pos, disp)) and max(map(pos, disp)) < pos(fill), "POS-FILL", f"{HR}|try_parse_one_form|capture order",
               "the start position must be captured after the first character is consumed and before the handler runs; the end after it", HR, tp.lineno, detail="getc; start; handler; fill_pos")
     rp = src.py("hy/models.py").func("Object.replace")
-    ctx.check(rp is not None and "if not hasattr(self, attr) and hasattr(other, attr): setattr(self, attr, getattr(other, attr))" in flat(rp), "POS-FILL", "hy/models.py|Object.replace",
-              "Object.replace must only fill positions that are still unset", "hy/models.py", 0, witness="a child's own position is overwritten by its parent's", detail="only unset attributes")
+    # Object.replace copies a position attribute only when self does not have it yet: the setattr(self, ...) is reached
+    # under `not hasattr(self, attr)` (path atoms; `continue` guards count)
+    if rp is not None:
+        sa = [c for c in pyq.calls(rp) if dotted(c.func) == "setattr" and c.args and isinstance(c.args[0], ast.Name) and c.args[0].id == "self"]
+        verdict = None
+        if sa:
+            verdict = all(any(str(a).replace(" ", "") in ("nothasattr(self,attr)",) or (str(a).startswith("not hasattr(self,")) for a in pyq.atoms(c, rp)) for c in sa)
+        ctx.decide("POS-FILL", "hy/models.py|Object.replace", verdict, "Object.replace must only fill positions that are still unset", "hy/models.py", rp.lineno,
+                   witness="a child's own position is overwritten by its parent's", detail="only unset attributes")
 
 
 def check(ctx, src):
